@@ -665,6 +665,10 @@ func TestC14Hist(t *testing.T) {
 			c.claim(2, []uint64{2}, []uint64{0})
 			c.claim(2, []uint64{3}, []uint64{0})
 			c.withdraw(3, "loya", bi(1000), "00000000000000000000000000000000000000e1")
+			// the account now holds more than 2^64 loya: an amount that does not fit the attested uint64 must not be burned
+			c.withdraw(3, "loya", badd(pow2(64), bi(5)), "00000000000000000000000000000000000000e1")
+			c.withdraw(3, "loya", pow2(64), "00000000000000000000000000000000000000e1")
+			c.withdraw(3, "loya", bsub(pow2(64), bi(1)), "00000000000000000000000000000000000000e1")
 		}, "corpus:F26")
 		// withdrawals: ids, amounts, recipients
 		run([]uint64{1}, nil, func(c *c14case) {
